@@ -329,3 +329,85 @@ def run_case(c: Dict[str, Any]) -> Outcome:
 
 
 SELFTEST_CASES = [dict(outs=["fail", "fail", "ok"], mr=["str", 3], dflt_count=3, roe="true", dflt_label=False, nror=True, user={"u1": 5}, codec="json")]
+
+
+# ---------------------------------------------------------------- retries through the bundled InMemoryBroker
+#
+# There a re-sent message is executed in the same event loop, concurrently with the tail of the attempt that re-sent it:
+# whatever the interleaving, what can be read under the task id at the end is the FINAL attempt's outcome.
+# (await_inplace=True is left out: there the re-sent message is executed NESTED inside the failing attempt's on_error hook, so
+# with no_result_on_retry=False the outer attempt necessarily stores its result last - a property of that test mode, see DESIGN 5.)
+
+
+def inmemory_cases() -> Any:
+    return st.fixed_dictionaries({
+        "inmemory": st.just(True), "outs": st.lists(st.sampled_from(["fail", "fail", "ok"]), min_size=1, max_size=5),
+        "maxr": st.integers(1, 5), "nror": st.booleans(), "yielding": st.sampled_from([False, False, True]), "inplace": st.just(False),
+    })
+
+
+def run_inmemory(c: Dict[str, Any]) -> Outcome:
+    from taskiq import InMemoryBroker
+
+    out = Outcome()
+    out.clauses_checked = ["C11.a", "C11.c"]
+    outs = c["outs"] + ["fail"] * 10
+    runs: List[int] = []
+
+    async def go() -> Any:
+        b = InMemoryBroker(await_inplace=c["inplace"])
+        b.add_middlewares(SimpleRetryMiddleware(default_retry_count=c["maxr"], default_retry_label=True, no_result_on_retry=c["nror"]))
+
+        async def t() -> Any:
+            n = len(runs)
+            runs.append(n)
+            if c["yielding"]:
+                await asyncio.sleep(0)
+            if outs[n] == "fail":
+                raise ValueError(f"attempt {n + 1} failed")
+            return f"ok on attempt {n + 1}"
+
+        t.__module__ = __name__
+        b.register_task(t, task_name="im.t")
+        await AsyncKicker("im.t", b, {}).with_task_id("R").kiq()
+        for _ in range(30):
+            await b.wait_all()
+            await asyncio.sleep(0)
+        res = (await b.result_backend.get_result("R")) if await b.result_backend.is_result_ready("R") else None
+        await b.shutdown()
+        return res
+
+    res = asyncio.run(go())
+    # reference: executions until success or maxr reached
+    want_execs = 0
+    last = None
+    while True:
+        o = outs[want_execs]
+        want_execs += 1
+        last = o
+        if o == "ok" or want_execs >= max(1, c["maxr"]):
+            break
+    if len(runs) != want_execs:
+        out.add("C11.a", f"{len(runs)} executions, expected {want_execs} (outcomes {c['outs']}, max_retries={c['maxr']}) through InMemoryBroker")
+    elif res is None:
+        out.add("C11.c", f"no result readable under the task id after {want_execs} attempts")
+    elif last == "ok" and (res.is_err or res.return_value != f"ok on attempt {want_execs}"):
+        out.add("C11.c", f"the final attempt (#{want_execs}) succeeded but the stored result is is_err={res.is_err} value={short(res.return_value, 40)} error={short(res.error, 60)} "
+                         f"(no_result_on_retry={c['nror']}, task body {'yields' if c['yielding'] else 'never suspends'})")
+    elif last == "fail" and (not res.is_err or f"attempt {want_execs} failed" not in str(res.error)):
+        out.add("C11.c", f"the final attempt (#{want_execs}) failed but the stored result is is_err={res.is_err} error={short(res.error, 60)}")
+    out.nontrivial = want_execs >= 2
+    out.classes = ["inmemory_retry", f"execs={min(want_execs, 4)}"] + (["final_ok"] if last == "ok" else ["final_fail"])
+    return out
+
+
+_parts_core11, _run_core11 = parts, run_case
+
+
+def parts(tier: str) -> List[Part]:  # type: ignore[no-redef]
+    n = 3000 if tier == "thorough" else 200
+    return _parts_core11(tier) + [Part("inmemory_retry", "given", shards=2, examples=n, strategy=inmemory_cases, soft_deadline_s=900 if tier == "thorough" else 100)]
+
+
+def run_case(c: Dict[str, Any]) -> Outcome:  # type: ignore[no-redef]
+    return run_inmemory(c) if c.get("inmemory") else _run_core11(c)
